@@ -639,8 +639,12 @@ func (c *Check) withdrawRules(prefix string) {
 			r := stripConv(pa.Ret[0])
 			if r.IsAt("P1") {
 				okDefault = true
-			} else if strings.HasSuffix(r.Op, "KVStore.Get") && strings.Contains(r.String(), "(types.GetWithdrawAddrKey P1)") {
-				okStored = true
+			} else if strings.HasSuffix(r.Op, "KVStore.Get") && len(r.A) >= 1 {
+				// the stored value of the withdraw-address family under the owner
+				k := stripConv(r.A[len(r.A)-1])
+				if fam, _ := c.P.keyFamily(k); fam == "0x07" && len(k.A) == 1 && k.A[0].IsAt("P1") {
+					okStored = true
+				}
 			}
 		}
 		c.req(okStored && okDefault, prefix+".withdraw.address", g.Name, g.Body.Pos(), "returns the stored withdrawal address of the owner, else the owner itself")
